@@ -27,6 +27,8 @@ def ups(rng, mx=2):
 
 class Sess:
     """Builds one script and tracks what the client will do (identifier counters, outstanding operations)."""
+    EXTRA_RNG = None           # set by `with_extras`: random stateless CONNACK properties in every family's handshakes
+    STATELESS_CONNACK = [18, 19, 26, 28, 31, 34, 36, 37, 40, 42]
 
     def __init__(self, name, cfg=None):
         self.name = name
@@ -76,6 +78,12 @@ class Sess:
             self.add('AUTHORIZE r=24 am=6d ad=64')
         else:
             self.add(('CONNECT ' + m.kvs(fields)).strip())
+        x = Sess.EXTRA_RNG
+        if x is not None and reason == 0 and x.random() < 0.35:
+            # what else a broker may say in a successful CONNACK: the client keeps no state for any of these properties
+            connack_ps = list(connack_ps) + [(pid, prop_value(x, pid)) for pid in x.sample(Sess.STATELESS_CONNACK, x.choice([1, 2, 4]))
+                                             if not any(q == pid for q, _ in connack_ps)]
+            x.shuffle(connack_ps)
         self.add(m.feed(m.connack(sp, reason, connack_ps), cuts))
         if run:
             self.add('RUN')
@@ -296,9 +304,12 @@ def fam_C01(rng, tier):
     if tier == 'quick':
         combos = combos[:96]
     k = 0
+    # (every other script after a CONNACK that denies every optional capability — QoS 0 only, no retain, no topic aliases, no
+    # wildcard / shared subscriptions: the client passes the caller's request on unchanged, it is the broker's to refuse)
+    NOCAPS = [(36, 0), (37, 0), (34, 0), (40, 0), (42, 0), (19, 5)]
     for base in range(0, len(combos), 16):
         s = Sess(f'c01-publish-{base}', rng.choice(WR_POLICIES))
-        s.connect()
+        s.connect(connack_ps=NOCAPS if (base // 16) % 2 else ())
         for combo in combos[base:base + 16]:
             f = [(key, g(rng)) for (key, g), on in zip(PUB_OPTS, combo) if on]
             f += [('up', (pick_str(rng), pick_str(rng))) for _ in range(rng.choice([0, 0, 1, 2]))]
@@ -318,7 +329,7 @@ def fam_C01(rng, tier):
     opts = [f'{q}{nl}{rap}{rh}' for q in range(3) for nl in range(2) for rap in range(2) for rh in range(3)]
     for base in range(0, len(opts), 6):
         s = Sess(f'c01-subscribe-{base}', rng.choice(WR_POLICIES))
-        s.connect()
+        s.connect(connack_ps=NOCAPS if (base // 6) % 2 else ())
         for o in opts[base:base + 6]:
             nf = rng.choice([1, 1, 2, 3])
             fl = [(rng.choice(TOPICS), o)] + [(rng.choice(TOPICS), rng.choice(opts)) for _ in range(nf - 1)]
@@ -714,6 +725,148 @@ def mutations(rng, pkt, tier):
     return out
 
 
+def one_prop_value(pid):
+    t = m.PROP_TYPE[pid]
+    return {'u8': 1, 'u16': 1, 'u32': 1, 'var': 1, 'str': b'a', 'bin': b'a'}.get(t, (b'k', b'v'))
+
+
+def prop_by_type_scripts(prefix):
+    """every property identifier of MQTT 5 in every packet type a server can send: legal ones are accepted, a property that
+    exists but does not belong in that packet type is a protocol error (never a panic, never a stall)"""
+    out = []
+    for pid in sorted(m.PROP_TYPE):
+        ps = [(pid, one_prop_value(pid))]
+        for both in (False, True):
+            ps2 = ps + [(31, b'r')] if both else ps         # alone, and next to a property that is legal almost everywhere
+            tag = f'{pid}{"b" if both else ""}'
+            s = Sess(f'{prefix}-propx-connack-{tag}')
+            s.add('SETUP')
+            s.add('CONNECT cid=63')
+            s.add(m.feed(m.connack(0, 0, ps2)))
+            s.add('RUN')
+            s.ping()
+            s.feed(m.pingresp())
+            out.append(s.script())
+            s = Sess(f'{prefix}-propx-authc-{tag}')
+            s.add('SETUP')
+            s.add('CONNECT cid=63 am=6d')
+            s.add(m.feed(m.auth(0x18, [(21, b'm')] + [x for x in ps2 if x[0] != 21])))
+            out.append(s.script())
+            for kind in ('pub0', 'pub1', 'pub2', 'puback', 'pubrec', 'pubcomp', 'pubrel', 'suback', 'unsuback', 'disconnect', 'auth'):
+                s = Sess(f'{prefix}-propx-{kind}-{tag}')
+                s.connect()
+                if kind.startswith('pub') and kind[3:].isdigit():
+                    q = int(kind[3])
+                    s.feed(m.publish(b'a', b'x', q, 7 if q else None, 0, 0, ps2))
+                elif kind == 'puback':
+                    o, p2 = s.publish(1)
+                    s.feed(m.ack('puback', p2, 0, ps2))
+                elif kind == 'pubrec':
+                    o, p2 = s.publish(2)
+                    s.feed(m.ack('pubrec', p2, 0, ps2))
+                elif kind == 'pubcomp':
+                    o, p2 = s.publish(2)
+                    s.feed(m.ack('pubrec', p2))
+                    s.feed(m.ack('pubcomp', p2, 0, ps2))
+                elif kind == 'pubrel':
+                    s.feed(m.publish(b'a', b'x', 2, 7))
+                    s.feed(m.ack('pubrel', 7, 0, ps2))
+                elif kind == 'suback':
+                    o, p2, sid = s.subscribe()
+                    s.feed(m.suback(p2, [0], ps2))
+                elif kind == 'unsuback':
+                    o, p2 = s.unsubscribe()
+                    s.feed(m.unsuback(p2, [0], ps2))
+                elif kind == 'disconnect':
+                    s.feed(m.disconnect(0x8b, ps2))
+                else:
+                    s.feed(m.auth(0x19, ps2))
+                s.ping()
+                s.feed(m.pingresp())
+                out.append(s.script())
+    return out
+
+
+def padded_subid_scripts(prefix):
+    """the Subscription Identifier of an inbound PUBLISH in a longer than necessary Variable Byte Integer form (the decoder takes
+    it): the message still belongs to the subscription with that VALUE"""
+    out = []
+    for nsub in (1, 2, 130):
+        for width in (2, 3, 4):
+            for qos in (0, 1):
+                s = Sess(f'{prefix}-padsubid-{nsub}-{width}-{qos}')
+                s.connect()
+                sids = []
+                for _ in range(nsub):
+                    op, sid = s.subscribed_stream()
+                    sids.append(sid)
+                sid = sids[-1]
+                s.feed(m.publish(b'a', b'm1', qos, 1 if qos else None, 0, 0, [(11, sid)]))
+                # hand-made: property 0x0b with the value padded to `width` bytes
+                body = m.mstr(b'a') + (m.u16(2) if qos else b'')
+                pv = bytes([0x0b]) + m.varint_padded(sid, width)
+                if nsub >= 2:
+                    pv += bytes([0x0b]) + m.varint_padded(sids[0], width)
+                body += m.varint(len(pv)) + pv + b'm2'
+                s.feed(m.packet(0x30 | (qos << 1), body))
+                s.feed(m.publish(b'a', b'm3', qos, 3 if qos else None, 0, 0, [(11, sid)]))
+                out.append(s.script())
+    return out
+
+
+def reason_sweep_scripts(prefix, tier):
+    """every value of the reason-code byte in every packet type that has one (known codes of that packet, codes of other
+    packets, unassigned values), in the short and the full form"""
+    out = []
+    vals = range(256)
+    for r in vals:
+        for kind in ('connack', 'puback', 'pubrec', 'pubcomp', 'pubrel', 'suback', 'unsuback', 'disconnect', 'auth', 'authc'):
+            if tier == 'quick' and kind in ('pubrel', 'authc') and r % 4:
+                continue
+            s = Sess(f'{prefix}-rsweep-{kind}-{r}')
+            if kind == 'connack':
+                s.add('SETUP')
+                s.add('CONNECT cid=63')
+                s.add(m.feed(m.connack(0, r)))
+                out.append(s.script())
+                continue
+            if kind == 'authc':
+                s.add('SETUP')
+                s.add('CONNECT cid=63 am=6d')
+                s.add(m.feed(m.auth(r, [(21, b'm')])))
+                out.append(s.script())
+                continue
+            s.connect()
+            full = [(31, b'r')] if r % 2 else None
+            if kind == 'puback':
+                o, p2 = s.publish(1)
+                s.feed(m.ack('puback', p2, r, full))
+            elif kind == 'pubrec':
+                o, p2 = s.publish(2)
+                s.feed(m.ack('pubrec', p2, r, full))
+            elif kind == 'pubcomp':
+                o, p2 = s.publish(2)
+                s.feed(m.ack('pubrec', p2))
+                s.feed(m.ack('pubcomp', p2, r, full))
+            elif kind == 'pubrel':
+                s.feed(m.publish(b'a', b'x', 2, 7))
+                s.feed(m.ack('pubrel', 7, r, full))
+            elif kind == 'suback':
+                o, p2, sid = s.subscribe()
+                s.feed(m.suback(p2, [r]))
+            elif kind == 'unsuback':
+                o, p2 = s.unsubscribe()
+                s.feed(m.unsuback(p2, [r]))
+            elif kind == 'disconnect':
+                s.feed(m.disconnect(r, full) if full else m.disconnect(r, None, 'reason'))
+            else:
+                s.feed(m.auth(r, [(21, b'm')]))
+            s.ping()
+            s.feed(m.pingresp())
+            out.append(s.script())
+    return out
+
+
 def fam_C04(rng, tier):
     out = []
     # (1) exhaustive short byte strings over the boundary alphabet, in both phases
@@ -862,7 +1015,8 @@ class Walk:
         if rich and cfg is None and rng.random() < rich:
             # executor and transport behaviour are not the client's to choose: any mix of them
             cfg = ' '.join(x for x in [rng.choice(['', '', 'exec=sweep']), rng.choice(['', '', 'rd=fill']),
-                                       rng.choice(['', '', 'rdp=1']), rng.choice(['', '', 'wr=one', 'wr=pend', 'wr=pendone'])] if x) or None
+                                       rng.choice(['', '', 'rdp=1']), rng.choice(['', '', 'wr=one', 'wr=pend', 'wr=pendone']),
+                                       rng.choice(['', '', 'wflush=err', 'wflush=pend']), rng.choice(['', '', 'wclose=err', 'wclose=pend'])] if x) or None
         self.s = Sess(name, cfg)
         ps = []
         self.R = recv_max if recv_max is not None else 65535
@@ -982,7 +1136,17 @@ class Walk:
                 self.in_batch = True
                 s.add('HOLD ctx')
                 for _ in range(rng.choice([2, 2, 3, 5])):
+                    before = set(s.live_ops)
                     self.step_kind(rng.choices(opk, [self.w[x] for x in opk])[0])
+                    fresh = sorted(set(s.live_ops) - before)
+                    if self.allow_drop and fresh and rng.random() < 0.2:
+                        # the caller gives up after its request was queued and BEFORE the context task takes it: the request
+                        # is served all the same (written in full if it fits), only the outcome has nowhere to go
+                        o = fresh[0]
+                        s.add(f'DROP op{o}')
+                        self.held.discard(o)
+                        self.dropped = getattr(self, 'dropped', [])
+                        self.dropped.append(s.live_ops.pop(o))
                 s.add('RELEASE ctx')
                 self.in_batch = False
                 return
@@ -1566,7 +1730,25 @@ def fam_C09(rng, tier):
             out.append(s.script())
     out += fam_walk(rng, tier, 'c09-walk', 30 if tier == 'quick' else 1000, 60,
                     weights=dict(pub0=0, pub1=1, pub2=0, sub=2, unsub=0, ping=0, ack=3, inbound=10, pubrel=6, stream=3),
-                    subid_modes=['reg'])
+                    subid_modes=['reg'], recv_max=lambda r: r.choice([None, None, 1, 2]))
+    # MANY inbound QoS 2 exchanges open at once (the Receive Maximum of the CONNACK limits what the CLIENT may send, never what
+    # it remembers about the broker's messages): n deliveries, every one re-delivered, all released, delivered again
+    for n in ([3, 5, 40] if tier == 'quick' else [2, 3, 5, 17, 40, 300, 1000]):
+        for rm in (None, 1, 2):
+            for order in ('fwd', 'rev'):
+                s = Sess(f'c09-many-{n}-{rm}-{order}')
+                s.connect(connack_ps=[(33, rm)] if rm else [])
+                op, sid = s.subscribed_stream()
+                ids = list(range(1, n + 1))
+                for p2 in ids:
+                    s.feed(m.publish(b'a', b'first', 2, p2, 0, 0, [(11, sid)]))
+                for p2 in (ids if order == 'fwd' else ids[::-1]):
+                    s.feed(m.publish(b'a', b'again', 2, p2, 1, 0, [(11, sid)]))
+                for p2 in (ids if order == 'fwd' else ids[::-1]):
+                    s.feed(m.ack('pubrel', p2))
+                for p2 in ids[:3]:
+                    s.feed(m.publish(b'a', b'new', 2, p2, 0, 0, [(11, sid)]))
+                out.append(s.script())
     # other traffic with the SAME identifier numbers in the opposite direction (outbound QoS 1/2 exchanges and their
     # acknowledgements) interleaved with deliveries, re-deliveries and releases: the SUBSCRIBE takes identifier 1, so the
     # outbound publishes get 2, 3, ... and the inbound messages use 2 and 3
@@ -1782,6 +1964,19 @@ def fam_C11(rng, tier):
             else:
                 s.feed(m.suback(pid, [0]))
     out.append(s.script())
+    # more than 16 384 subscribe() calls on one client: the subscription identifier crosses every width of its Variable Byte
+    # Integer that a test can reach (128, 16 384); responses are kept for a while so that old identifiers are still alive
+    s = Sess('c11-manysubs')
+    s.connect()
+    s.add('CLONE h0 h1')
+    nsubs = 16600 if tier == 'quick' else 40000
+    for i in range(nsubs):
+        op, pid, sid = s.subscribe(h=i % 2)
+        s.feed(m.suback(pid, [0]))
+        s.live_ops.pop(op, None)
+        if i >= 40:
+            s.add(f'DROP rsp{op - 40}')
+    out.append(s.script())
     # real OS threads: n clones of the handle start identifier-taking operations at the same time (first poll only), all of
     # them outstanding together. 'big-' scripts are judged by the oracle alone (the model is single-threaded: an atomic
     # `allocPid` step per operation; this script searches for a failing input where that assumption is wrong).
@@ -1830,6 +2025,30 @@ def fam_C12(rng, tier):
                 s.ping()
                 s.feed(m.pingresp())
             out.append(s.script())
+    # the caller gives up after its request was queued and before the context task takes it: the request is judged by its
+    # size all the same (written in full when it fits, nothing when it does not)
+    for kind in kinds:
+        for M in [None, 4294967295, 2, 12, 24, 25, 26, 27, 40]:
+            for late in (False, True):
+                s = Sess(f'c12-cancel-{kind}-{M}-{int(late)}')
+                s.connect(connack_ps=[(39, M)] if M is not None else [])
+                s.add('HOLD ctx')
+                if kind.startswith('pub'):
+                    o, _ = s.publish(int(kind[3]), fields=[('p', b'0123456789')], topic=b'topic/x')
+                elif kind == 'sub':
+                    o, _, _ = s.subscribe([(b'filter/#', '1101'), (b'b', '2000')])
+                elif kind == 'unsub':
+                    o, _ = s.unsubscribe([b'filter/#', b'b'])
+                elif kind == 'ping':
+                    o = s.ping()
+                else:
+                    o = s.disconnect([('r', 4), ('rs', b'bye')])
+                if late:
+                    s.ping()
+                s.add(f'DROP op{o}')
+                s.add('RELEASE ctx')
+                s.ping()
+                out.append(s.script())
     # the client's OWN Maximum Packet Size / Receive Maximum (CONNECT) limit what it receives, never what it sends
     for kind in kinds:
         for own in [1, 16]:
@@ -1928,11 +2147,14 @@ def fam_C13(rng, tier):
     causes += [('sdisc-empty', 0), ('udisc', 0), ('udisc', 0x04), ('udisc-cancelled', 0), ('udisc-batch', 0), ('udisc-batch', 1),
                ('udisc-batch', 2), ('udisc-batch', 3), ('batch-udisc', 0), ('eof', 0), ('err', 0), ('handles', 0),
                ('garbage', 0), ('badlen', 0), ('werr', 0)]
+    # whatever the transport answers to flush / close (the client asks for neither) the user's DISCONNECT ends run() with Ok
+    SIDE = ['wclose=err', 'wclose=pend', 'wflush=err', 'wflush=pend', 'wclose=pend wflush=pend wr=pendone']
+    causes += [('udisc-side', k) for k in range(len(SIDE))]
     for cause, r in causes:
         for st in states():
             if tier == 'quick' and cause == 'sdisc' and r not in (0, 0x04, 0x81, 0x8b, 0xa2) and st.__name__ != 'idle':
                 continue
-            cfg = 'werr=40' if cause == 'werr' else None
+            cfg = 'werr=40' if cause == 'werr' else SIDE[r] if cause == 'udisc-side' else None
             s = Sess(f'c13-{cause}-{r}-{st.__name__}-{i}', cfg)
             i += 1
             s.connect(connack_ps=[(39, 30)] if cause == 'udisc-refused' else [])
@@ -1943,8 +2165,8 @@ def fam_C13(rng, tier):
                 s.feed(m.disconnect(r, None, 'reason'))          # e0 01 rc: reason code without a property length
             elif cause == 'sdisc-empty':
                 s.feed(m.disconnect(0, None, 'empty'))
-            elif cause == 'udisc':
-                s.disconnect([('r', r)])
+            elif cause in ('udisc', 'udisc-side'):
+                s.disconnect([('r', r if cause == 'udisc' else 0)])
                 s.publish(0)         # must not be written after the DISCONNECT
             elif cause == 'udisc-refused':
                 # the DISCONNECT exceeds the server's Maximum Packet Size: refused, nothing written — run() keeps serving,
@@ -2102,6 +2324,29 @@ def fam_C14(rng, tier):
                 s.add(f'POLL op{o}')
             s.add('POLL st3')
             out.append(s.script())
+    # limits announced by the broker (Maximum Packet Size, an exhausted Receive Maximum) mean nothing once the context is gone:
+    # every operation started afterwards fails with ContextExited whatever its size or kind
+    for mps in (None, 20, 32):
+        for rm in (None, 1):
+            for how in ('dropctx', 'ret'):
+                s = Sess(f'c14-limits-{mps}-{rm}-{how}')
+                s.connect(connack_ps=([(39, mps)] if mps else []) + ([(33, rm)] if rm else []))
+                s.add('CLONE h0 h1')
+                s.publish(1)            # takes the only slot when rm = 1
+                if how == 'dropctx':
+                    s.add('DROPCTX')
+                else:
+                    s.feed(m.disconnect(0x8b))
+                big = b'x' * 70
+                s.publish(0, 0, [('p', big)])
+                s.publish(1, 1, [('p', big)])
+                s.publish(2, 0, [('p', big)])
+                s.publish(1, 1)
+                s.subscribe([(big, '2000')], 0)
+                s.unsubscribe([big], 1)
+                s.disconnect([('rs', big)], 0)
+                s.ping(1)
+                out.append(s.script())
     # a stream holding k unconsumed messages when the context goes: all k are yielded, then the stream ends. Variants: the
     # stream was polled before (registered) or never; taken before or only after the drop; messages in one read or one each;
     # part of the backlog consumed while the context was alive
@@ -2444,7 +2689,19 @@ def fam_C17(rng, tier):
             i += 1
             s.connect([('cid', b'c')] + ([('sei', sei)] if sei is not None else []))
             hist(s, upto)
-            s.add('FEEDEOF')                  # connection lost: run() returns SocketClosed
+            # the connection ends: lost (end of stream / read error), closed by the broker, closed by the APPLICATION with
+            # exchanges still unfinished, or run() cancelled — the session state is the same in every case
+            cause = ['eof', 'eof', 'err', 'sdisc', 'udisc', 'dropfut'][i % 6]
+            if cause == 'eof':
+                s.add('FEEDEOF')
+            elif cause == 'err':
+                s.add('FEEDERR')
+            elif cause == 'sdisc':
+                s.feed(m.disconnect(0x8b))
+            elif cause == 'udisc':
+                s.disconnect()
+            else:
+                s.add('DROPFUT')
             s.add('SNAP')
             s.add(f'MARKDISC {ago}')
             s.add('SETUP')
@@ -2522,6 +2779,124 @@ def fam_C17(rng, tier):
 ACTOR = ['C05', 'C06', 'C07', 'C08', 'C09', 'C10', 'C12', 'C13', 'C14', 'C15', 'C17']
 
 
+# =============================================================================================== reactive broker
+REACT = ('REACT',)
+
+
+def broker_replies(raw):
+    """what a conformant broker answers to one client packet (None: nothing)"""
+    from . import wire
+    pk = wire.try_client(raw)
+    if pk is None:
+        return None
+    t = pk['type']
+    if t == 3 and pk['qos'] == 1:
+        return m.ack('puback', pk['pid'])
+    if t == 3 and pk['qos'] == 2:
+        return m.ack('pubrec', pk['pid'])
+    if t == 6:
+        return m.ack('pubcomp', pk['pid'])
+    if t == 8:
+        return m.suback(pk['pid'], [0] * max(1, len(pk.get('filters', [1]))))
+    if t == 10:
+        return m.unsuback(pk['pid'], [0] * max(1, len(pk.get('filters', [1]))))
+    if t == 12:
+        return m.pingresp()
+    return None
+
+
+def expand_reactive(scenarios, runner, max_rounds=12):
+    """scenarios: (name, items) with items = script lines and REACT markers. A REACT marker is replaced by the FEED lines a
+    conformant broker would send in answer to everything the IMPLEMENTATION has written so far and that is still
+    unanswered — found by running the implementation on the script built up to that point. The resulting scripts are then
+    ordinary scripts (run by the model, compared, judged); on a tree where model and implementation agree they are the
+    scripts a static generator would have written."""
+    st = {n: dict(lines=[], items=list(items), answered=0) for n, items in scenarios}
+    for _ in range(max_rounds):
+        waiting = []
+        for n, d in st.items():
+            while d['items'] and d['items'][0] is not REACT:
+                d['lines'].append(d['items'].pop(0))
+            if d['items']:
+                d['items'].pop(0)
+                waiting.append(n)
+        if not waiting:
+            break
+        tr = runner([(n, st[n]['lines']) for n in waiting])
+        for n in waiting:
+            d = st[n]
+            ws = [bytes.fromhex(o.split(' ')[1]) for _, obs in tr.get(n, []) for o in obs if o.startswith('W ')]
+            for raw in ws[d['answered']:]:
+                r = broker_replies(raw)
+                if r is not None:
+                    d['lines'].append(m.feed(r))
+            d['answered'] = len(ws)
+    return [(n, d['lines'] + [x for x in d['items'] if x is not REACT]) for n, d in st.items()]
+
+
+def reactive_scenarios(rng, tier, prefix):
+    """operations from several clones whose futures are polled promptly, late, or dropped, against a broker that answers
+    whatever actually appears on the wire, whenever it appears"""
+    out = []
+    n = 40 if tier == 'quick' else 600 * DEPTH
+    for i in range(n):
+        items = ['SETUP', 'CONNECT cid=63', m.feed(m.connack(0, 0, [(33, rng.choice([1, 2, 5]))] if rng.random() < 0.4 else [])), 'RUN',
+                 'CLONE h0 h1']
+        op = 0
+        held, live = set(), []
+        for _ in range(rng.choice([3, 6, 12])):
+            k = rng.choice(['pub1', 'pub2', 'pub2', 'pub2', 'sub', 'unsub', 'ping', 'react', 'react', 'release', 'drop', 'holdctx'])
+            if k in ('pub1', 'pub2', 'sub', 'unsub', 'ping'):
+                op += 1
+                h = rng.choice([0, 1])
+                if k.startswith('pub'):
+                    items.append(f'OP {op} h{h} PUBLISH q={k[3]} t=61 p=78')
+                elif k == 'sub':
+                    items.append(f'OP {op} h{h} SUBSCRIBE f=61:2000' + (' f=62:1000' if rng.random() < 0.3 else ''))
+                elif k == 'unsub':
+                    items.append(f'OP {op} h{h} UNSUBSCRIBE f=61')
+                else:
+                    items.append(f'OP {op} h{h} PING')
+                live.append(op)
+                if rng.random() < 0.45:
+                    items.append(f'HOLD op{op}')       # the application is slow to poll this future again
+                    held.add(op)
+            elif k == 'react':
+                items.append(REACT)
+            elif k == 'release' and held:
+                o = rng.choice(sorted(held))
+                held.discard(o)
+                items.append(f'RELEASE op{o}')
+            elif k == 'drop' and live and rng.random() < 0.3:
+                o = rng.choice(live)
+                live.remove(o)
+                held.discard(o)
+                items.append(f'DROP op{o}')
+            elif k == 'holdctx':
+                items += ['HOLD ctx', REACT, 'RELEASE ctx']
+        # the broker keeps answering, the application finally polls everything
+        items += [REACT, REACT]
+        for o in sorted(held):
+            items.append(f'RELEASE op{o}')
+        items += [REACT, REACT, REACT]
+        out.append((f'{prefix}-react-{i}', items))
+    # the plain late-poll cases, every kind
+    for kind in ('pub1', 'pub2', 'sub', 'unsub', 'ping'):
+        for others in (0, 2):
+            items = ['SETUP', 'CONNECT cid=63', m.feed(m.connack(0, 0, [])), 'RUN', 'CLONE h0 h1']
+            line = {'pub1': 'PUBLISH q=1 t=61', 'pub2': 'PUBLISH q=2 t=61', 'sub': 'SUBSCRIBE f=61:2000', 'unsub': 'UNSUBSCRIBE f=61',
+                    'ping': 'PING'}[kind]
+            items += [f'OP 1 h0 {line}', 'HOLD op1']
+            for j in range(others):
+                items.append(f'OP {2 + j} h1 ' + ['PUBLISH q=1 t=62', 'PING'][j])
+            items += [REACT, REACT, REACT, 'RELEASE op1', REACT, REACT]
+            out.append((f'{prefix}-react-late-{kind}-{others}', items))
+    return out
+
+
+REACTIVE = ('C05', 'C06', 'C10', 'C15')
+
+
 def with_common(fam, prefix, **kw):
     def f(rng, tier):
         out = fam(rng, tier) + fam_common(rng, tier, prefix, **kw)
@@ -2540,13 +2915,27 @@ def with_common(fam, prefix, **kw):
 BASE = {'C05': fam_C05, 'C06': fam_C06, 'C07': fam_C07, 'C08': fam_C08, 'C09': fam_C09, 'C10': fam_C10, 'C12': fam_C12,
         'C13': fam_C13, 'C14': fam_C14, 'C15': fam_C15, 'C17': fam_C17}
 
+def with_extras(fam):
+    def f(rng, tier):
+        Sess.EXTRA_RNG = random.Random(rng.random())
+        try:
+            return fam(rng, tier)
+        finally:
+            Sess.EXTRA_RNG = None
+    return f
+
+
 FAMILIES = {
     'C01': fam_C01, 'C02': fam_C02, 'C03': fam_C03,
-    'C04': with_common(lambda rng, tier: fam_C04(rng, tier) + burst_scripts('c04', tier), 'c04'), 'C05': with_common(fam_C05, 'c05'), 'C06': with_common(fam_C06, 'c06'),
-    'C07': with_common(fam_C07, 'c07'), 'C08': with_common(fam_C08, 'c08'), 'C09': with_common(fam_C09, 'c09'),
+    'C04': with_common(lambda rng, tier: fam_C04(rng, tier) + burst_scripts('c04', tier) + prop_by_type_scripts('c04') + padded_subid_scripts('c04') + reason_sweep_scripts('c04', tier), 'c04'), 'C05': with_common(fam_C05, 'c05'), 'C06': with_common(fam_C06, 'c06'),
+    'C07': with_common(lambda rng, tier: fam_C07(rng, tier) + padded_subid_scripts('c07'), 'c07'), 'C08': with_common(fam_C08, 'c08'), 'C09': with_common(fam_C09, 'c09'),
     'C10': with_common(fam_C10, 'c10'), 'C11': with_common(fam_C11, 'c11', n_quick=15, n_thorough=300),
     'C12': with_common(fam_C12, 'c12'), 'C13': with_common(fam_C13, 'c13'),
-    'C14': with_common(fam_C14, 'c14', tail=['DROPCTX', 'OP 9001 h0 PING', 'OP 9002 h0 DISCONNECT']),
+    'C14': with_common(fam_C14, 'c14', tail=['DROPCTX', 'OP 9001 h0 PING', 'OP 9003 h0 PUBLISH q=1 t=61 p=' + '78' * 100, 'OP 9004 h0 SUBSCRIBE f=' + '61' * 100 + ':2000',
+                             'OP 9002 h0 DISCONNECT']),
     'C15': with_common(fam_C15, 'c15'), 'C16': fam_C16,
     'C17': with_common(fam_C17, 'c17', n_quick=0, n_thorough=0),
 }
+for _p in list(FAMILIES):
+    if _p not in ('C03', 'C16'):          # (their scripts come in groups that must stay byte-identical)
+        FAMILIES[_p] = with_extras(FAMILIES[_p])
